@@ -46,6 +46,10 @@ class ChunkParser:
             # in case chunk size without CRLF was received
             raw = self.chunk + raw
             self.chunk = b''
+            # CRLF terminating previous chunk data may arrive
+            # separately from the data (or even split in two)
+            if raw.startswith(CRLF):
+                raw = raw[len(CRLF):]
             # Extract following chunk data size
             line, raw = find_http_line(raw)
             # CRLF not received or Blank line was received.
@@ -53,22 +57,36 @@ class ChunkParser:
                 self.chunk = raw
                 raw = b''
             else:
-                self.size = int(line, 16)
+                # Ignore chunk extensions if any
+                self.size = int(line.split(b';', 1)[0].strip(), 16)
                 self.state = chunkParserStates.WAITING_FOR_DATA
         elif self.state == chunkParserStates.WAITING_FOR_DATA:
             assert self.size is not None
-            remaining = self.size - len(self.chunk)
-            self.chunk += raw[:remaining]
-            raw = raw[remaining:]
-            if len(self.chunk) == self.size:
-                raw = raw[len(CRLF):]
-                self.body += self.chunk
-                if self.size == 0:
-                    self.state = chunkParserStates.COMPLETE
-                else:
-                    self.state = chunkParserStates.WAITING_FOR_SIZE
+            if self.size == 0:
+                # Last chunk.  Skip optional trailer fields, complete
+                # only when the terminating blank line has been received.
+                raw = self.chunk + raw
                 self.chunk = b''
-                self.size = None
+                while self.state != chunkParserStates.COMPLETE:
+                    line, raw = find_http_line(raw)
+                    if line is None:
+                        self.chunk = raw
+                        raw = b''
+                        break
+                    if line == b'':
+                        self.state = chunkParserStates.COMPLETE
+                        self.size = None
+            else:
+                remaining = self.size - len(self.chunk)
+                self.chunk += raw[:remaining]
+                raw = raw[remaining:]
+                if len(self.chunk) == self.size:
+                    # CRLF following chunk data is consumed
+                    # before parsing next chunk size
+                    self.body += self.chunk
+                    self.state = chunkParserStates.WAITING_FOR_SIZE
+                    self.chunk = b''
+                    self.size = None
         return len(raw) > 0, memoryview(raw)
 
     @staticmethod
